@@ -336,6 +336,39 @@ func (d *driver) selftest() int {
 			}
 		}
 		fmt.Printf("selftest %s: %d seeds x %d repetitions, %d divergent\n", prop, len(seeds), reps, pbad)
+		// replay fidelity: a recorded run, replayed strictly from its file in a
+		// fresh process, must take exactly the same decisions
+		nrep := int(envU64("SELFTEST_REPLAYS", 12))
+		rbad := 0
+		var rwg sync.WaitGroup
+		var rmu sync.Mutex
+		for i := 0; i < nrep; i++ {
+			rwg.Add(1)
+			sem <- struct{}{}
+			go func(seed uint64) {
+				defer rwg.Done()
+				defer func() { <-sem }()
+				wo := d.runWorker([]string{fmt.Sprintf("SIM_SEEDS=%d:1", seed), "SIM_SAVE_ALL=1", "SIM_OUT=" + d.scratch, "SIM_TAG=-st"}, 5*time.Minute)
+				if len(wo.results) != 1 || wo.results[0].ReplayPath == "" {
+					return
+				}
+				orig := wo.results[0]
+				wr := d.runWorker([]string{"SIM_REPLAY=" + orig.ReplayPath}, 5*time.Minute)
+				if len(wr.results) != 1 || wr.results[0].Hash != orig.Hash || wr.results[0].HistHash != orig.HistHash || wr.results[0].Verdict != orig.Verdict {
+					rmu.Lock()
+					rbad++
+					got := "no result"
+					if len(wr.results) == 1 {
+						got = wr.results[0].Verdict + " " + wr.results[0].Hash + " " + wr.results[0].Aborted
+					}
+					fmt.Printf("REPLAY-MISMATCH %s seed=%d: recorded %s %s, replay %s\n", prop, seed, orig.Verdict, orig.Hash, got)
+					rmu.Unlock()
+				}
+			}(d.seed*1000 + 500 + uint64(i))
+		}
+		rwg.Wait()
+		bad += rbad
+		fmt.Printf("selftest %s: %d recorded runs replayed from file, %d mismatches\n", prop, nrep, rbad)
 	}
 	if bad > 0 {
 		return 2
